@@ -137,6 +137,10 @@ def _props_of(v):
         return set(SAFETY)
     if r in ('CRATEGRAPH', 'REACH', 'TYPECLOSURE'):
         return {'C06'}
+    if r == 'SHIFT':
+        # a word-sized bit set standing for slots or requests: what the root computes is wrong (or it panics) for
+        # containers larger than the word -- evidence against every property that relies on the root
+        return set(v.get('root_props') or ())
     return set()
 
 
